@@ -41,6 +41,8 @@ OPS = [
     {"k": "rename", "src": H("file"), "dst": H("a/b/moved2"), "flags": 1},
     {"k": "rename", "src": H("file"), "dst": H("l/f"), "flags": 2},            # RENAME_EXCHANGE
     {"k": "reopen", "path": H("file"), "flags": O["RDONLY"]},
+    {"k": "reopen", "path": H("file"), "flags": O["PATH"]},
+    {"k": "reopen", "path": H("a/b"), "flags": O["PATH"] | O["DIRECTORY"]},
     {"k": "proc_open", "base": "self", "path": H("status"), "flags": O["RDONLY"]},
     {"k": "proc_open", "base": "thread", "path": H("fd"), "flags": O["PATH"], "follow": True},
     {"k": "proc_readlink", "base": "self", "path": H("cwd")},
